@@ -197,7 +197,7 @@ def actName : Action → String
   | .pushStr _ => "pushstr" | .pushNum _ => "pushnum" | .truncate _ => "trunc"
 
 /-- run the history on the model next to the implementation's dumps -/
-def runOps (dict : Nat → Option VR) (fuel : Nat) : Nat → Nat → Obj → List String → Nat → Nat → Nat →
+def runOps (mode : String) (dict : Nat → Option VR) (fuel : Nat) : Nat → Nat → Obj → List String → Nat → Nat → Nat →
     Except String (Obj × List String × Nat × Nat × Nat)
   | 0, _, o, ts, a, b, c => .ok (o, ts, a, b, c)
   | n + 1, idx, o, ts, maxDepth, nErr, kinds =>
@@ -219,7 +219,11 @@ def runOps (dict : Nat → Option VR) (fuel : Nat) : Nat → Nat → Obj → Lis
             else
             -- the reference semantics (the property) on the implementation's previous state
             let spec := applySpec dict o steps tag act
-            if spec.2.isNone ≠ (res == "ok") then
+            let isPush := match act with | .pushStr _ | .pushNum _ => true | _ => false
+            if isPush && (spec.2.isNone != (res == "ok") || !(Obj.beq spec.1 impl)) then
+              -- a Push* action gave the attribute a value that is not of the kind of its VR
+              .error s!"PROP-FAIL class=value-type-incompatible-with-vr step={idx} action={actName act} depth={steps.length} spec-ok={spec.2.isNone} impl={res} mode={mode}"
+            else if spec.2.isNone ≠ (res == "ok") then
               .error s!"PROP-FAIL class=op-result-differs-from-documented-semantics step={idx} action={actName act} spec-ok={spec.2.isNone} impl={res}"
             else if !(Obj.beq spec.1 impl) then
               .error s!"PROP-FAIL class=object-differs-from-documented-semantics step={idx} action={actName act} depth={steps.length} result={res}"
@@ -233,7 +237,7 @@ def runOps (dict : Nat → Option VR) (fuel : Nat) : Nat → Nat → Obj → Lis
                 | .remove => 1 | .empty => 2 | .setVr _ => 4 | .set _ => 8 | .setStr _ => 16
                 | .setIfMissing _ => 32 | .setStrIfMissing _ => 64 | .replace _ => 128 | .replaceStr _ => 256
                 | .pushStr _ => 512 | .pushNum _ => 1024 | .truncate _ => 2048
-              runOps dict fuel n (idx + 1) impl ts (max maxDepth steps.length)
+              runOps mode dict fuel n (idx + 1) impl ts (max maxDepth steps.length)
                 (if res == "ok" then nErr else nErr + 1) (kinds ||| bit)
         | _, _ => .error "BAD-LINE"
       | _ => .error "BAD-LINE"
@@ -260,7 +264,7 @@ def handle (line : String) : String :=
         | none => "BAD-LINE"
         | some k =>
         if !o0.wf then "MODEL-DIFF initial dump not sorted" else
-        match runOps dict fuel k 0 o0 ts 0 0 0 with
+        match runOps mode dict fuel k 0 o0 ts 0 0 0 with
         | .error e => e
         | .ok (final, rest, maxDepth, nErr, kinds) =>
           match rest with
